@@ -77,6 +77,7 @@ FAULTS = [
     ('p4', 'restore'), ('p4', 'start'), ('p4', 'stop'),
     ('fb', 'first_eval'),
     ('os', 'result_event'),
+    ('mx', 'mixin_start'),
 ]
 CAUSES_R = ['none', 'shutdown', 'abort', 'ev_shutdown', 'ev_abort', 'handler', 'calc',
             'abort_before_start', 'ev_shutdown_at_init', 'ev_abort_at_init']
@@ -237,6 +238,29 @@ def build_circuit(edzed, case, hist, state):
                                            's0', 'ping', efilter=result_filter))
     makers.append(mk_os)
 
+    def mk_mx():
+        # a main-task block composed with a mix-in that sits BELOW the AddonMainTask add-on in
+        # the MRO; fault site ('mx', 'mixin_start'): the mix-in's start() fails, i.e. the block's
+        # start() never returns - no task of the block may exist afterwards
+        core.perturb_addresses(rng, keep)
+
+        class StartMixin:
+            def start(self):
+                super().start()
+                if tuple(fault or ()) == ('mx', 'mixin_start'):
+                    hist.log('raise', 'mx', 'start')
+                    raise Fault('mx mixin start')
+
+        class MX(edzed.AddonMainTask, StartMixin, edzed.SBlock):
+            def init_regular(self):
+                self.set_output(0)
+
+            async def _maintask(self):
+                hist.log('mx_maintask_running')
+                await asyncio.sleep(10 ** 6)
+        objs['mx'] = MX('mx', stop_timeout=2)
+    makers.append(mk_mx)
+
     def lib():
         core.perturb_addresses(rng, keep)
         if comp != 'small':
@@ -249,11 +273,23 @@ def build_circuit(edzed, case, hist, state):
             async def icoro():
                 await asyncio.sleep(2.0)
                 return 'async-value'
+            # a free-running timer: its n-th timer is started by the expiry of the (n-1)-th
+            objs['tp'] = edzed.Timer('tp', t_period=1.1, initdef='on')
             objs['ia'] = edzed.InitAsync('ia', init_coro=[icoro], init_timeout=9, on_output=[
                 edzed.Event('inp', 'put'), edzed.Event('pin', 'put')])
             # persistent, nothing stored, no initdef: stays uninitialised (get_state() raises)
             # until the InitAsync block delivers a value at t=2
             objs['pin'] = edzed.Input('pin', persistent=True)
+        # output blocks whose function takes no event data: their stop_data is an empty mapping
+        # ("not used" is None, anything else is used)
+        def of0func():
+            hist.log('of0_call')
+
+        async def oa0coro():
+            hist.log('oa0_call')
+        objs['of0'] = edzed.OutputFunc('of0', func=of0func, f_args=(), stop_data={}, on_error=None)
+        objs['oa0'] = edzed.OutputAsync('oa0', coro=oa0coro, f_args=(), stop_data={}, on_error=None,
+                                        mode=rng.choice(['w', 's', 'c']), stop_timeout=3)
         objs['inp'] = edzed.Input('inp', initdef=0, persistent=True)
         objs['x'] = edzed.Input('x', initdef=(1 if fault == ('fb', 'first_eval') else 0))
 
@@ -597,7 +633,8 @@ def judge(case, hist, state, res, ctx):
     if res['pending_user_tasks']:
         raise core.Violation('task-pending-after-end', f"{where}: {res['pending_user_tasks']}")
     harness_kinds = ('cause', 'cause_exc', 'traffic_refused', 'shutdown_exc', 'sigterm_unhandled',
-                     'sigterm_chained', 'sup_cleanup_begin', 'sup_cleanup_end', 'early_init_sent')
+                     'sigterm_chained', 'sup_cleanup_begin', 'sup_cleanup_end', 'early_init_sent',
+                     'mx_maintask_running')
     if any(e[2] == 'sup_cleanup_begin' for e in E):
         ctx.count('supporting_task_with_slow_cleanup')
         if not any(e[2] == 'sup_cleanup_end' and e[0] < end_seq for e in E):
@@ -675,6 +712,15 @@ def judge(case, hist, state, res, ctx):
                     f"finish before stop_data: finished {os_ends}")
     elif 'STOP' in os_calls:
         raise core.Violation('stop-data-without-start', f"{where}: OutputAsync runs {os_calls}")
+    for blk0 in ('of0', 'oa0'):
+        n0 = sum(1 for e in E if e[2] == blk0 + '_call')
+        if n0 != (1 if started.get(blk0) else 0):
+            ctx.count('empty_stop_data_checked')
+            raise core.Violation(
+                'stop-data-not-last' if started.get(blk0) else 'stop-data-without-start',
+                f"{where}: {blk0} (function without arguments, stop_data={{}}; started: "
+                f"{bool(started.get(blk0))}) was called {n0} time(s)")
+        ctx.count('empty_stop_data_checked')
     # ---- L6 ----
     if res['restart'] != 'refused':
         raise core.Violation('finished-circuit-restarted', f"{where}: run_forever() again: {res['restart']}")
